@@ -346,6 +346,16 @@ class SGen:
                 else:
                     # a group key that is not selected; sometimes it carries an alias nobody selected (must be ignored)
                     gitems.append(["t", k, "unselected"] if self.r.random() < 0.4 else ["t", k])
+            if depth < self.max_depth and self.r.random() < 0.08 and any(x.tref is not None for x in srcs):
+                # a correlated scalar sub-query as group key (parenthesised since /repo 2346aee): selected under an alias,
+                # grouped by the un-aliased statement
+                import copy
+                sub = self.scalar_sub(depth + 1, srcs)
+                nm = self.r.choice([a for a in ["m", "sa", "zz7"] if a not in outcols])
+                outcols[nm] = "int"
+                gitems.append(["sub", copy.deepcopy(sub)])
+                sub["alias"] = nm
+                sels.append(["sub", sub])
             for _ in range(self.r.choice([1, 1, 2])):
                 a = self.agg(srcs, ub)
                 typ = "str" if (a[1] in ("MIN", "MAX") and a[2][0][0] == "field" and a[2][0][1] == "s") else "int"
@@ -358,9 +368,12 @@ class SGen:
                 if a[1] in ("MIN", "MAX") and a[2][0][0] == "field" and a[2][0][1] == "s":
                     a = ["func", "COUNT", [["star", None]], None]
                 q["having"] = ["t", ["basic", self.r.choice(["gt", "gte", "lt", "ne"]), a, self.int_lit(), None]]
-                if self.r.random() < self.p_defect:
-                    q["having"] = (["cmp", "gt", a, self.scalar_sub(depth + 1, [])] if self.r.random() < 0.5
-                                   else ["exists", self.column_sub(depth + 1, []), False])
+                if depth < self.max_depth and self.r.random() < 0.25:
+                    # sub-queries in HAVING (parenthesised since /repo c8c50bc): comparison, EXISTS, IN
+                    r2 = self.r.random()
+                    q["having"] = (["cmp", self.r.choice(["gt", "lte", "ne"]), a, self.scalar_sub(depth + 1, [])] if r2 < 0.4
+                                   else ["exists", self.column_sub(depth + 1, []), self.r.random() < 0.3] if r2 < 0.7
+                                   else ["in", a, self.column_sub(depth + 1, []), self.r.random() < 0.3])
         else:
             star = (not named) and not has_using and self.r.random() < 0.07
             if star:
@@ -421,6 +434,9 @@ class SGen:
                             if self.r.random() < 0.3:
                                 f = self._unselected_alias(f, {Ref.out_name(i) for i in sels})
                             obs.append([["t", f], self.r.choice([None, "asc", "desc"])])
+            if obs and not want_page and not grouped and not q.get("distinct") and depth < self.max_depth and self.r.random() < 0.12:
+                # a (possibly correlated) scalar sub-query as ORDER BY key (parenthesised since /repo 2346aee)
+                obs.insert(self.r.randrange(len(obs) + 1), [["sub", self.scalar_sub(depth + 1, srcs)], self.r.choice([None, "asc", "desc"])])
             if obs:
                 q["orderby"] = obs
         hits = captured_order_items(q)
